@@ -20,6 +20,21 @@ def sh(cmd, cwd=None, env=None, timeout=3600):
     return r.returncode, r.stdout
 
 
+
+def apply_patch(wt, patch):
+    """git apply; if the tree has moved on since the patch was made (fix commits in the same files), fall back to a 3-way
+    apply and return the refreshed diff against the current HEAD.  Returns (ok, output, refreshed_diff_or_None)"""
+    r = subprocess.run('git -C %s apply %s' % (wt, patch), shell=True, stdout=subprocess.PIPE, stderr=subprocess.STDOUT, text=True)
+    if r.returncode == 0:
+        return True, r.stdout, None
+    r3 = subprocess.run('git -C %s apply -3 %s' % (wt, patch), shell=True, stdout=subprocess.PIPE, stderr=subprocess.STDOUT, text=True)
+    if r3.returncode != 0 or 'with conflicts' in r3.stdout:
+        subprocess.run('git -C %s checkout -q -- . ; git -C %s reset -q --hard' % (wt, wt), shell=True)
+        return False, r.stdout + r3.stdout, None
+    d = subprocess.run('git -C %s diff HEAD -- engine tests' % wt, shell=True, stdout=subprocess.PIPE, text=True).stdout
+    subprocess.run('git -C %s reset -q' % wt, shell=True)
+    return True, r3.stdout, d
+
 def main():
     agent_wt, X, sid = sys.argv[1], sys.argv[2], sys.argv[3]
     props = sys.argv[4:]
@@ -57,8 +72,9 @@ def main():
                 return c, o[-1500:]
         c0, o0 = run_demo('orig')
         meta['steps'].append(dict(step='demo on unchanged tree', exit=c0, tail=o0[-400:]))
-        c, o = sh('git apply %s' % os.path.join(src, 'patch.diff'), cwd=WT)  # the SEED/ copy is untracked and not part of the patch
-        meta['steps'].append(dict(step='git apply patch.diff', exit=c, tail=o[-300:]))
+        ok, o, refreshed = apply_patch(WT, os.path.join(src, 'patch.diff'))  # the SEED/ copy is untracked and not part of the patch
+        c = 0 if ok else 1
+        meta['steps'].append(dict(step='git apply patch.diff' + (' (3-way: the tree has moved on since the change was made)' if refreshed else ''), exit=c, tail=o[-300:]))
         if c:
             print('patch does not apply', o)
         c, o = sh('cmake -G Ninja -B build -DFETCHCONTENT_SOURCE_DIR_GOOGLETEST=/usr/src/googletest -DFETCHCONTENT_FULLY_DISCONNECTED=ON >/dev/null && cmake --build build 2>&1 | tail -3 && cd build && ./unitTests 2>&1 | tail -3', cwd=WT)
@@ -89,6 +105,10 @@ def main():
         for f in os.listdir(src):
             if os.path.isfile(os.path.join(src, f)) and os.path.getsize(os.path.join(src, f)) < 200000:
                 shutil.copy(os.path.join(src, f), dst)
+        if refreshed:
+            shutil.copy(os.path.join(dst, 'patch.diff'), os.path.join(dst, 'patch.orig.diff'))
+            open(os.path.join(dst, 'patch.diff'), 'w').write(refreshed)
+            meta['patch_refreshed_on_repo_commit'] = subprocess.run('git -C /repo rev-parse --short HEAD', shell=True, stdout=subprocess.PIPE, text=True).stdout.strip()
         rd = os.path.join(src, 'README.md')
         meta['needs_to_manifest'] = open(rd).read()[:1500] if os.path.exists(rd) else ''
         json.dump(meta, open(os.path.join(dst, 'meta.json'), 'w'), indent=1)
